@@ -578,7 +578,25 @@ def fromdict_rules(model, R):
             f'cls({v_obj}, {v_prop}, bools)', src(call))
     bools = reaching(func, call.args[2]) if len(call.args) == 3 else None
     ok = False
-    if isinstance(bools, ast.ListComp) and len(bools.generators) == 1:
+    if isinstance(bools, ast.List) and not bools.elts and isinstance(call.args[2], ast.Name):
+        # bools = [] ; for row in context: s = _make_set(row); bools.append(tuple(i in s for i in indexes))
+        bname = call.args[2].id
+        for lp in [s_ for s_ in func.body if isinstance(s_, ast.For) and isinstance(s_.target, ast.Name)]:
+            apps = [n for n in walk(lp.body) if isinstance(n, ast.Call) and chain(n.func) == [bname, 'append'] and len(n.args) == 1]
+            if len(apps) == 1 and len([n for n in walk(func.body) if isinstance(n, ast.Call) and chain(n.func) == [bname, 'append']]) == 1:
+                lenv_ = Env(lp.body, params=[lp.target.id])
+                row = lenv_.expand(apps[0].args[0])
+                if isinstance(row, ast.Call) and name_is(row.func, 'tuple') and row.args:
+                    row = row.args[0]
+                if isinstance(row, (ast.GeneratorExp, ast.ListComp)) and len(row.generators) == 1 and isinstance(row.elt, ast.Compare):
+                    t_, g_ = row.elt, row.generators[0]
+                    rhs = t_.comparators[0]
+                    ok = (isinstance(t_.ops[0], ast.In) and src(t_.left) == src(g_.target) and not g_.ifs and isinstance(g_.iter, ast.Name)
+                          and isinstance(rhs, ast.Call) and make_set is not None and name_is(rhs.func, make_set.name)
+                          and name_is(rhs.args[0], lp.target.id) and name_is(lp.iter, v_ctx))
+                    if ok:
+                        bools = apps[0].args[0]
+    if not ok and isinstance(bools, ast.ListComp) and len(bools.generators) == 1:
         row = bools.elt
         if isinstance(row, ast.Call) and name_is(row.func, 'tuple'):
             row = row.args[0]
